@@ -666,6 +666,14 @@ def rule_cycle_exists(ctx, c, rule):
         cd = c.prov._closure_def(fl, fl.term(sp)["args"][-1])
         if cd and sites_star(facts, cd[0], lambda g, tt: tt["callee"] == HC):
             runs = True
+    # the cycle is not skipped when the collector is busy: the helper waits for the collector lock
+    fl_bodies = [fl] + facts.closures_of(fl)
+    trylocks = [(g.path, g.loc(b)) for g in fl_bodies for b in g.calls_re(r"::try_lock(_for|_until)?$", cleanup=False)]
+    locks = [(g.path, g.loc(b)) for g in fl_bodies for b in g.calls_re(r"lock_api::mutex::Mutex::<R, T>::lock$", cleanup=False)]
+    ctx.check(bool(locks) and not trylocks, rule, fl.path, fl.span,
+              "flush() waits for the collector lock (a cycle that is already running does not make it return without running one)",
+              "lock at %s" % locks, "try_lock at %s: when the background cycle holds the lock flush() returns without delivering "
+              "what finished after that cycle's drain" % trylocks, extra="flush-waits")
     direct = sites_star(facts, fl, lambda g, tt: tt["callee"] == HC)
     ok_join = bool(joins) and all(fl.must_pass([(sp, fl.term(sp)["target"])], joins)[0] for sp in spawns)
     ctx.check((runs and ok_join) or bool(direct), rule, fl.path, fl.span,
